@@ -258,6 +258,14 @@ def _ops_triple():
         o, p, b = t
         if not o or not p: return t
         o = list(o); o[0] = p[-1]; return (o, p, b)
+    def overlap_blank(t, r):
+        o, p, b = t
+        if not o or not p: return t
+        o, p = list(o), list(p); o[r.randrange(len(o))] = ''; p[r.randrange(len(p))] = ''; return (o, p, b)
+    def blank_obj(t, r):
+        o, p, b = t
+        if not o: return t
+        o = list(o); o[0] = ''; return (o, p, b)
     def empty_obj(t, r): o, p, b = t; return ([], p, b)
     def empty_obj_rows(t, r): o, p, b = t; return ([], p, [])
     def empty_prop(t, r): o, p, b = t; return (o, [], b)
@@ -333,6 +341,11 @@ def _ops_dict():
         return d
     def overlap(d, r):
         if d.get('objects') and d.get('properties'): d['properties'] = list(d['properties']); d['properties'][0] = d['objects'][0]
+        return d
+    def overlap_blank(d, r):
+        if d.get('objects') and d.get('properties'):
+            d['objects'] = list(d['objects']); d['properties'] = list(d['properties'])
+            d['objects'][-1] = ''; d['properties'][0] = ''
         return d
     def empty_obj(d, r):
         if 'objects' in d: d['objects'] = []; d['context'] = []
